@@ -956,9 +956,14 @@ func Generate(seed int64, cfg *Config) *Program {
 		}
 		// assign in dependency order: monotone file index
 		total := len(p.Structs) + len(p.Stages) + len(p.Pipelines)
+		if p.NFiles > total {
+			p.NFiles = total
+			p.FileNames = p.FileNames[:total]
+		}
 		k := 0
 		assign := func() int {
-			f := k * p.NFiles / (total + 1)
+			// every file gets at least one declaration
+			f := k * p.NFiles / total
 			k++
 			return f
 		}
